@@ -34,7 +34,7 @@ def n_trace(ctx):
     if "r" in _tr:
         return _tr["r"]
     ex = waterlib.prepare_examples(ctx)
-    nl, endy = (15, 1995) if ctx.thorough else (12, 1982)    # the same scenario lines as waterlib.run_trace
+    nl, endy = (17, 1995) if ctx.thorough else (14, 1982)    # the same scenario lines as waterlib.run_trace
     lf = os.path.join(ctx.work, "ntrace_lines.txt")
     with open(lf, "w") as f:
         f.write("\n".join(l + " LeachingDepth=20" for l in waterlib.trace_lines(ctx, nl, endy)) + "\n")
